@@ -43,6 +43,66 @@ def positive(x: int):
     return x > 0
 
 
+from ovld import dependent_check as _dependent_check
+
+
+@_dependent_check
+def Shape(t: tuple, *dims):  # typing.Any is a wildcard parameter
+    return len(t) == len(dims) and all(d is typing.Any or d == x for x, d in zip(t, dims))
+
+
+def _deferred_fixture():
+    """Importable but not yet imported packages for Deferred[...] references (files in a scratch directory that is
+    removed at exit)."""
+    import atexit
+    import os
+    import shutil
+    import sys
+    import tempfile
+
+    root = tempfile.mkdtemp(prefix="vt_deferred_")
+    atexit.register(shutil.rmtree, root, True)
+    files = {
+        "vt_pkg/__init__.py": "from .base import Animal\n",
+        "vt_pkg/base.py": "class Animal: ...\n",
+        "vt_pkg/cats.py": "from .base import Animal\nclass Cat(Animal): ...\n",
+        "vt_moda/__init__.py": "class Thing: ...\n",
+        "vt_modb/__init__.py": "class Thing: ...\n",
+    }
+    for rel, text in files.items():
+        path = os.path.join(root, rel)
+        os.makedirs(os.path.dirname(path), exist_ok=True)
+        with open(path, "w") as f:
+            f.write(text)
+    sys.path.insert(0, root)
+    sys.dont_write_bytecode = True
+
+
+_deferred_fixture()
+_DEFERRED = None
+
+
+def deferred_terms():
+    """(terms, classes): Deferred references created BEFORE their packages are imported, then the classes."""
+    global _DEFERRED
+    if _DEFERRED is None:
+        from ovld.types import Deferred
+
+        refs = ["vt_pkg.base.Animal", "vt_pkg.Animal", "vt_moda.Thing", "vt_modb.Thing"]
+        ts = [Deferred[r] for r in refs]
+        import vt_moda
+        import vt_modb
+        import vt_pkg.base
+        import vt_pkg.cats
+
+        targets = [vt_pkg.base.Animal, vt_pkg.base.Animal, vt_moda.Thing, vt_modb.Thing]
+        for t, c in zip(ts, targets):
+            SPEC[id(t)] = ("Deferred", (c,))
+            _KEEP.append(t)
+        _DEFERRED = (ts, [vt_pkg.base.Animal, vt_pkg.cats.Cat, vt_moda.Thing, vt_modb.Thing])
+    return _DEFERRED
+
+
 def N(t):
     import types as _types
 
@@ -91,10 +151,17 @@ def terms(depth=1):
     K["Exactly"] = [X_(A), X_(B), X_(int), X_(E), X_(A)]  # two separately built X_(A)
     K["Strict"] = [S_(A), S_(B), S_(int), S_(object)]
     K["HasMethod"] = [HasMethod["foo"], HasMethod["__len__"], HasMethod["__init__"]]
-    K["ClassCheck"] = [class_check(is_named_b)]
+    dts, dcls = deferred_terms()
+    K["Class"] += dcls
+    K["ClassCheck"] = [class_check(is_named_b)] + dts
     K["Equals"] = [N(Literal[1]), N(Literal[1, 2]), N(Literal[2, 1]), N(Literal["a"]), N(Literal[True]), Equals[0]]
     K["FuncDep"] = [Dependent[int, positive], StartsWith["a"], StartsWith["ab"], Regexp["^a"], Dependent[A, class_check(is_named_b)] if False else Dependent[bool, positive]]
     K["Product"] = [N(tuple[A, B]), N(tuple[B, C]), N(tuple[B, B]), N(tuple[A]), N(tuple[()]), N(tuple[int, str])]
+    # members listed most-specific-first and least-specific-first (the order of a container against another type
+    # must not depend on the position of the member that decides it); dependent types with wildcard parameters
+    K["Union"] += [U_(B, A), U_(A, B), U_(D, B, E)]
+    K["Inter"] += [I_(A, B), I_(B, A), I_(Sized, tuple, A)]
+    K["FuncDep"] += [Shape[2, typing.Any], Shape[typing.Any, 2], Shape[2, 2], Shape[typing.Any, typing.Any]]
     if depth >= 2:
         K["Union"] += [U_(I_(A, E), int), U_(X_(A), E), U_(N(Literal[1]), str), U_(list[A], E)]
         K["Inter"] += [I_(N(A | E), C), I_(X_(A), E)]
